@@ -24,7 +24,7 @@ RULE = ("seeded sampling over entry point x method {newton, broyden1, broyden2, 
         "plus directed exact-arithmetic cases (dyadic affine maps whose root is hit exactly after one step, constant maps, y0 a bitwise "
         "root for real and complex unknowns); non-trivial = the call returned and the spy recorded >= 3 evaluations of the user "
         "function (>= 2 iterations), or a directed case whose exact-root event (|f| == 0 in the history) was observed")
-MIN_NONTRIVIAL = {"quick": 500, "thorough": 6000}
+MIN_NONTRIVIAL = {"quick": 1500, "thorough": 18000}
 ASSUMPTIONS = [
     "families are y - h(y) with h a q-contraction, q <= 0.6 (holomorphic family: q <= 0.35 inside its invariant ball |y| <= 0.5; convex "
     "objectives: Hessian eigenvalues in [0.6, 1.4] + quartic 0.05*z^4)",
@@ -32,7 +32,7 @@ ASSUMPTIONS = [
     "not for broyden1/2 on the holomorphic family (only locally contractive) and not for gd/adam warm starts",
     "float32 cases request f_tol, x_tol in {1e-2, 1e-3}",
     "gd/adam are run with step sizes adapted to the known Hessian bounds (gd 0.3-0.5, adam 3e-2) and maxiter 3000/6000",
-    "agreement tolerance: 20*f_tol/(1-q) for the root-finding methods and anderson_acc; 1e-6*(1+|y*|) for gd without momentum (x_rtol=1e-9); "
+    "agreement tolerance: 100*f_tol/(1-q) for the root-finding methods and anderson_acc; 1e-6*(1+|y*|) for gd without momentum (x_rtol=1e-9); "
     "2e-2*(1+|y*|) for gd with momentum / adam with x_rtol=1e-9; none for gd/adam with their default relative tolerances",
     "objective clause slack: 2000*eps*(1+|F(y0)|), plus f_tol^2/(1-q) for the root-finding methods (what |grad| < f_tol implies)",
 ]
@@ -56,7 +56,7 @@ GD_CLASSES = ["plain_tight", "momentum_tight", "default_tol"]
 
 def cases(seed, tier):
     out = []
-    N = 760 if tier == "quick" else 9000
+    N = 2400 if tier == "quick" else 30000
     sizes = [1, 2, 3, 5, 8, 12]
     tasks = ["rootfinder", "equilibrium", "minimize"]
     for i in range(N):
@@ -296,21 +296,28 @@ def run_case(desc):
             if not gd:
                 slack += f_tol ** 2 / (1 - q)
             obs.count("objective_clause_checked")
+            obs.note(obj_ratio=(F1 - F0) / slack)
             obs.check(F1 <= F0 + slack, "objective:%s:%s" % (cfg, "y0_at_solution" if mode in ("ref", "near", "exactroot") else "y0_far"),
                       "silent return with objective %.12e > objective at the initial guess %.12e (excess %.3e, slack %.1e)"
                       % (F1, F0, F1 - F0, slack), family=family, y0=mode, gdclass=gdclass, nev=nev)
         # ---- all methods return the same point: distance to the independent float64 reference
         err = _norm(yd.to(yref.dtype) - yref)
         if not gd:
-            etol = 20 * f_tol / (1 - q) + 200 * eps * math.sqrt(N) * scale / (1 - q)
+            etol = 100 * f_tol / (1 - q) + 200 * eps * math.sqrt(N) * scale / (1 - q)
         elif method == "gd" and gdclass == "plain_tight":
             etol = 1e-6 * scale
         elif gdclass in ("momentum_tight", "plain_tight"):
             etol = 2e-2 * scale
         else:
             etol = None
+        if family == "holo" and _norm(yd) > 0.5:
+            # the holomorphic map has further fixed points outside its invariant ball (uniqueness is only claimed inside);
+            # a solver that left the ball and met the stopping test elsewhere satisfied the statement
+            obs.count("holo_root_outside_ball")
+            etol = None
         if etol is not None:
             obs.count("reference_compared")
+            obs.note(ref_ratio=err / etol)
             obs.check(err <= etol, "reference:%s" % cfg, "silent return differs from the float64 reference by %.3e > %.3e" % (err, etol),
                       family=family, y0=mode, gdclass=gdclass, nev=nev, resid=rnorm)
     # ---- must-be-silent classes
